@@ -71,7 +71,7 @@ Proof. exact pay_transcript_binds. Qed.
     hash-to-scalar map, for whatever hash is used *)
 Theorem C12_same_challenge_is_collision : forall (K : Fld) (chal : list (atom K) -> K) t t',
   t <> t' -> chal t = chal t' -> exists a b, a <> b /\ chal a = chal b.
-Proof. intros K chal t t' H E. exists t, t'. auto. Qed.
+Proof. exact same_challenge_is_collision. Qed.
 
 Example C12_nonvacuous :
   let kp := keygen (fq 11) (fq 17) [fq 19; fq 23; fq 29; fq 31; fq 37] (fq 13) in
